@@ -366,6 +366,7 @@ type State struct {
 	polls   []poll                  // stop polls passed since the head of the innermost loop (C16)
 	loopBinds map[string]Val        // $i<ord> / $range<ord> of the enclosing loops
 	nameLog []string                // (term, constant) pairs in the order they were named
+	weak    bool                    // the path passed the head of a loop that has no invariant: states on it need not be reachable
 	inlineEntry *State              // state at the entry of the function being executed inline (old() of its loop invariants)
 }
 
@@ -412,6 +413,7 @@ func (s *State) fork() *State {
 	n.polls = s.polls[:len(s.polls):len(s.polls)]
 	n.nameLog = s.nameLog[:len(s.nameLog):len(s.nameLog)]
 	n.inlineEntry = s.inlineEntry
+	n.weak = s.weak
 	if s.writes != nil {
 		n.writes = make(map[string][]wr, len(s.writes))
 		for k, v := range s.writes {
